@@ -51,6 +51,20 @@ def gen_cases(ctx, n, maxsize):
             x = datagen.longlits2(rng, rng.choice([0, 131072]) + rng.randint(70000, 131072)); api = "c2"
             p = {100: rng.choice([1, 2, 3, 4, 5, 7])}
             if rng.random() < 0.3: p[201] = 1
+        if i % 25 == 3:
+            # isolated matches of an exact short length behind long match-free stretches, through the skipping match finders
+            kind = "exactlen"; x = datagen.exactlen(rng, rng.choice([2000, 4096, 4096, 8192, 16384, 40000]))
+            api = rng.choice(["c2", "c2", "simple"])
+            p = {100: rng.choice([-5, -1, 1, 2, 3, 3, 4, 5])}
+            if api == "c2":
+                if rng.random() < 0.7: p[107] = rng.choice([1, 2, 2, 3, 4])
+                if rng.random() < 0.7: p[105] = rng.choice([3, 4, 4, 5, 6])
+                if rng.random() < 0.2: p[106] = rng.choice([0, 1, 2, 4])
+        if i in (201, 601, 1101) or (not ctx.quick() and i % 500 == 201):
+            # long-distance matching inside one multi-MiB worker job
+            kind = "ldmjob"; x, jmb = datagen.ldmjob(rng); api = "c2"
+            p = {100: rng.choice([1, 3]), 160: 1, 400: rng.choice([1, 1, 2]), 401: jmb << 20}
+            if rng.random() < 0.5: p[201] = 1
         d = b""
         if api in ("udict", "ucdict") or (api in ("c2", "adv") and rng.random() < 0.15):
             d = datagen.gen(rng, 8000)[1] + x[: rng.randint(0, min(len(x), 2000))]
@@ -131,9 +145,9 @@ def tie_entropy(ctx):
     BitW == bitstream.h writer, FSE.buildCTable / encodeAll == FSE_buildCTable_wksp / FSE_encodeSymbol, FSE.buildCells == FSE_buildDTable_wksp,
     HufEnc.codesOf / encode1 / layout4 == HUF_buildCTable / HUF_readCTable / HUF_compress1X / 4X; the decidable hypotheses of the theorems
     (spreadOK, spreadEnc = spread, weightsOK) are evaluated by the driver on every table and the model re-decodes its own streams"""
-    import ent_bitw, ent_fse, ent_huf
+    import ent_bitw, ent_fse, ent_huf, ent_lit
     out = {}
-    for name, mod in (("bitw", ent_bitw), ("fse", ent_fse), ("huf", ent_huf)):
+    for name, mod in (("bitw", ent_bitw), ("fse", ent_fse), ("huf", ent_huf), ("lit", ent_lit)):
         before = len(ctx.violations)
         r = mod.run(ctx)
         out[name] = r.get("evaluations", 0)
@@ -200,14 +214,14 @@ def correspondence(ctx):
 def replay(ctx, data):
     if data.get("ent"):
         # a function-level tie of an encoder-side model: re-run that tie (same seed => same operations) and report whether it still differs
-        import ent_bitw, ent_fse, ent_huf
-        mod = dict(bitw=ent_bitw, fse=ent_fse, huf=ent_huf)[data["ent"]]
+        import ent_bitw, ent_fse, ent_huf, ent_lit
+        mod = dict(bitw=ent_bitw, fse=ent_fse, huf=ent_huf, lit=ent_lit)[data["ent"]]
         if hasattr(mod, "replay") and data.get("op"):
             return mod.replay(ctx, data)
         ctx.rng = zv.Rng(int(data.get("seed", 1)) * 1000003 + sum(map(ord, "C01")))
         tie_rep_codes(ctx)        # consumes the generator exactly as the check did before reaching the entropy ties
         before = len(ctx.violations)
-        for name, m in (("bitw", ent_bitw), ("fse", ent_fse), ("huf", ent_huf)):
+        for name, m in (("bitw", ent_bitw), ("fse", ent_fse), ("huf", ent_huf), ("lit", ent_lit)):
             m.run(ctx)
             if name == data["ent"]:
                 break
